@@ -217,10 +217,12 @@ def jSched (j : Json) (k : String) : Except String (List Nat) :=
 
 def ofMEv (x : MEv) : Json := Json.arr #[ofNat x.1, ofEv x.2]
 
-/-- the folders of all experiments: [experiment, path, token]; `.params` once (experiment 0) -/
+/-- the folders of all experiments: [experiment, path, token]; `.params` and the files of the reference stage (top-level
+    folder of the invocation) once (experiment 0) -/
 def ofMFS (exps : List Exp) (m : MFS) : Json :=
   Json.arr (((m.params.map (fun t => Json.arr #[ofNat 0, ofPath .params, ofTok t])).toList ++
-    exps.flatMap (fun x => ((allPaths x.2.1).filter (fun p => p != Path.params)).filterMap
+    [Path.refFa, .refFai, .refFaiTmp].filterMap (fun p => (m.ref p).map (fun t => Json.arr #[ofNat 0, ofPath p, ofTok t])) ++
+    exps.flatMap (fun x => ((allPaths x.2.1).filter (fun p => p != Path.params && !isRefPath p)).filterMap
       (fun p => (m.dirs x.1 p).map (fun t => Json.arr #[ofNat x.1, ofPath p, ofTok t])))).toArray)
 
 def ofMRes (exps : List Exp) (r : MRes) : Json :=
@@ -242,7 +244,9 @@ def ops : List (String × Handler) := [
       let ords2 ← jList (jList jPath) (← arg j "ords2")
       let k ← jNat (← arg j "k")
       let exps := mkExps cfgs ords
-      let exps2 := mkExps cfgs ords2
+      -- the options of the resume command line (`resumeHM` / `resumeKT`: one command line for the whole invocation)
+      let cfgs2 ← cfgs.mapM (jResumeCfg j)
+      let exps2 := mkExps cfgs2 ords2
       let crash := crashMulti v exps MFS.empty k
       pure (Json.mkObj [("verdict", ofVerdict (verdictMulti v exps exps2 MFS.empty k)), ("crash", ofMFS exps crash),
                         ("resumed", ofMRes exps2 (runMulti v exps2 true crash))])),
